@@ -541,7 +541,7 @@ func (r *RectClip64) tidyEdgePair(idx int, cw, ccw []*OutPt2) {
 		}
 
 		if (isHorz && !hasHorzOverlap(p1.pt, p1a.pt, p2.pt, p2a.pt)) ||
-			(!isHorz && !hasHorzOverlap(p1.pt, p1a.pt, p2.pt, p2a.pt)) {
+			(!isHorz && !hasVertOverlap(p1.pt, p1a.pt, p2.pt, p2a.pt)) {
 			j++
 			continue
 		}
